@@ -185,6 +185,7 @@ structure LifeFacts where
   readFileStoresNew : Bool        -- … `table->data = new splinetable<>(path)`
   readMemAllocsOnlyIfNull : Bool  -- readsplinefitstable_mem: `if(!table->data) table->data = new splinetable<>()`
   gridevalReleasesResult : Bool   -- splinetable_grideval: `*result = nd.release()`
+  gridevalClearsResult : Bool     -- splinetable_grideval: `*result = NULL` is its first statement (before the guard)
   destroyDeletesDerived : Bool    -- ndsparse_destroy: `delete` through `photospline::ndsparse*` (the dynamic type)
   writeMemHandsOverBuffer : Bool  -- writesplinefitstable_mem: `buffer->data = result.first`
   deriving DecidableEq, Repr, Inhabited
@@ -215,6 +216,10 @@ inductive Op where
   | free (h : Nat)
   | readFile (h : Nat) (o : Outcome)
   | readMem (h : Nat) (o : Outcome)
+  /-- `readsplinefitstable_mem` on a handle that owns nothing, and `new splinetable<>()` itself throws
+      (`std::bad_alloc`): nothing is created, the handle stays NULL (`readMem h .throws` is the other failure: the
+      object exists and `read_fits_mem` throws, leaving an empty object behind the handle) -/
+  | readMemAllocFails (h : Nat)
   | use (h : Nat)                         -- any other wrapper on a handle: no effect on ownership
   | grideval (h : Nat) (slot : Nat) (o : Outcome)
   | destroy (slot : Nat)
@@ -250,12 +255,15 @@ def step (F : LifeFacts) (s : St) : Op → St
     | .null => { s with hs := s.hs.set h .live, led := { s.led with tables := s.led.tables + 1 } }
     | .live => if F.readMemAllocsOnlyIfNull then s else { s with led := { s.led with tables := s.led.tables + 1 } }
     | .dangling => { s with ub := true }
+  | .readMemAllocFails h => match hget s h with | .dangling => { s with ub := true } | _ => s
   | .use h => match hget s h with | .dangling => { s with ub := true } | _ => s
   | .grideval _ slot o =>
+    -- `*result = NULL;` comes first: whatever the caller's pointer held is no longer reachable through it
+    let s0 : St := if F.gridevalClearsResult && rget s slot then { s with rs := s.rs.set slot false } else s
     match o with
     | .ok => if F.gridevalReleasesResult then
-        { s with rs := s.rs.set slot true, led := { s.led with ndObjs := s.led.ndObjs + 1, ndArrays := s.led.ndArrays + 1 } } else s
-    | _ => s
+        { s0 with rs := s0.rs.set slot true, led := { s0.led with ndObjs := s0.led.ndObjs + 1, ndArrays := s0.led.ndArrays + 1 } } else s0
+    | _ => s0
   | .destroy slot =>
     if rget s slot then
       let led := if F.destroyDeletesDerived then { s.led with ndObjs := s.led.ndObjs - 1, ndArrays := s.led.ndArrays - 1 }
@@ -275,10 +283,33 @@ def run (F : LifeFacts) (s : St) (ops : List Op) : St := ops.foldl (step F) s
     indices are in range, and the caller frees only buffers it owns. -/
 def opValid (s : St) : Op → Bool
   | .init h _ => h < s.hs.length && hget s h == .null
-  | .free h | .readFile h _ | .readMem h _ | .use h | .writeMem h _ => h < s.hs.length
+  | .free h | .readFile h _ | .readMem h _ | .readMemAllocFails h | .use h | .writeMem h _ => h < s.hs.length
   | .grideval h slot _ => h < s.hs.length && slot < s.rs.length && !rget s slot
   | .destroy slot => slot < s.rs.length
   | .freeBuffer => 0 < s.led.buffers
+
+/-- What the *code* defines, beyond the usage rule: `splinetable_init` on a handle that owns an object and a grid
+    evaluation into a result pointer that still holds a result are plain pointer overwrites in C — defined, but the
+    object that was there is orphaned (`orphanedBy`).  Everything else as in `opValid`. -/
+def opDefined (s : St) : Op → Bool
+  | .init h _ => h < s.hs.length
+  | .grideval h slot _ => h < s.hs.length && slot < s.rs.length
+  | op => opValid s op
+
+def definedRun (F : LifeFacts) : St → List Op → Bool
+  | _, [] => true
+  | s, op :: ops => opDefined s op && definedRun F (step F s op) ops
+
+/-- (table objects, grid results) that the call makes unreachable without releasing them -/
+def orphanedBy (s : St) : Op → Nat × Nat
+  | .init h .ok => (if hget s h == .live then 1 else 0, 0)
+  | .grideval _ slot _ => (0, if rget s slot then 1 else 0)
+  | _ => (0, 0)
+
+/-- total over a history -/
+def orphansOf (F : LifeFacts) : St → List Op → Nat × Nat
+  | _, [] => (0, 0)
+  | s, op :: ops => ((orphanedBy s op).1 + (orphansOf F (step F s op) ops).1, (orphanedBy s op).2 + (orphansOf F (step F s op) ops).2)
 
 def validRun (F : LifeFacts) : St → List Op → Bool
   | _, [] => true
